@@ -51,8 +51,12 @@ def write_config(path, max_line_width=None):
            "net_name": "stub"}
     if max_line_width is not None:
         cfg["max_line_width"] = max_line_width
-    with open(path, "w") as fh:
+    # written by whichever forked worker needs it first: atomically, so that a worker running side by side never reads a
+    # half-written file (seen once under load 300: JSONDecodeError in the engine constructor, reported as an outcome of the code)
+    tmp = "%s.%d.tmp" % (path, os.getpid())
+    with open(tmp, "w") as fh:
         json.dump(cfg, fh)
+    os.replace(tmp, path)
     return path
 
 
@@ -395,23 +399,29 @@ def make_image_pt(tag, width):
 BADVAL = (1 << 30) - 1        # a stored value that is no integer (nan, inf, fraction) or is out of range
 
 
+SPINF = 8000000               # code of a floor distance: the "other" classes of the frame carry the logit -inf (log of a zero posterior)
+
+
 def check_pats(pats, nsym):
     """the frame patterns of the wide-range network (inputs of the case; LineBatcher_Trace!SpFrameOK reads them from the trace)"""
     assert len(pats) >= 2 and nsym + 1 <= 16
     for p in pats:
         assert len(p["ds"]) <= nsym and all(isinstance(d, int) and d >= 1 for d in p["ds"]) and p["fl"] >= 1
-        assert abs(p["off"]) + max(p["ds"] + [p["fl"]]) < (1 << 23)       # exact in float32
+        assert abs(p["off"]) + max(p["ds"] + [p["fl"] if p["fl"] != SPINF else 1]) < (1 << 23)       # exact in float32
+        assert all(d != SPINF for d in p["ds"])
 
 
 def _pt_network_wide(nsym, pats):
     """as _pt_network (same arg-max class per frame), but the frames have the dynamic range of a real network: the frame whose
-    arg-max class is cls emits  off - D  with D = 0 for cls, ds[j] for class (cls + j) % C, fl for every other class; the pattern
+    arg-max class is cls emits  off - D  with D = 0 for cls, ds[j] for class (cls + j) % C, fl for every other class (fl = SPINF:
+    the logit -inf, round 9); the pattern
     [off, ds, fl] is pattern 0 for frames that see padding only, else 1 + ((last own column - 1) // 4 + image tag) % (len(pats) - 1)"""
     check_pats(pats, nsym)
     c = nsym + 1
     dist = torch.zeros(len(pats), c)
     for k, p in enumerate(pats):
-        dist[k] = torch.tensor([0] + list(p["ds"]) + [p["fl"]] * (c - 1 - len(p["ds"])), dtype=torch.float32)
+        dist[k] = torch.tensor([0] + list(p["ds"]) + [float("inf") if p["fl"] == SPINF else p["fl"]] * (c - 1 - len(p["ds"])),
+                               dtype=torch.float32)
     offs = torch.tensor([float(p["off"]) for p in pats])
 
     class PtNetWide(torch.nn.Module):
